@@ -63,6 +63,20 @@ func (env *Env) tryEvalBool(x Expr) (t T, cerr string) {
 	return env.evalBool(x), ""
 }
 
+// tryEval is eval with contract errors returned instead of raised.
+func (env *Env) tryEval(x Expr) (v Value, cerr string) {
+	defer func() {
+		if r := recover(); r != nil {
+			if ce, ok := r.(contractError); ok {
+				cerr = ce.msg
+				return
+			}
+			panic(r)
+		}
+	}()
+	return env.eval(x), ""
+}
+
 func (env *Env) pcHas(t T) bool {
 	if env.st == nil {
 		return false
@@ -316,7 +330,12 @@ func (env *Env) eval(x Expr) Value {
 		switch s := base.(type) {
 		case VSlice:
 			if s.Reg == nil {
-				env.fail("index of nil slice")
+				// element of a definitely-nil slice: an arbitrary value (such a term is
+				// only meaningful under a guard 0 <= i < len, which is false here)
+				if s.Elem == nil {
+					env.fail("index of nil slice")
+				}
+				return e.materialize(e.freshName("nilelem"), s.Elem)
 			}
 			return e.readElem(env.st, s.Reg, BVBin("bvadd", s.Base, it), nil, s.Elem)
 		case VArr:
@@ -397,6 +416,22 @@ func (env *Env) selectField(v Value, name string) Value {
 						}
 					}
 				}
+			}
+		}
+		// abstract field of an interface-level view, defined for this concrete
+		// type by a `coupling` declaration
+		if nt := namedOf(x.Typ); nt != nil && nt.Obj().Pkg() != nil {
+			if cp := e.prog.contracts.Couplings[nt.Obj().Pkg().Name()+"."+nt.Obj().Name()][name]; cp != nil {
+				if env.depth > 40 {
+					env.fail("coupling %s.%s: recursion", cp.Type, name)
+				}
+				c := env.sub()
+				c.vars = map[string]Value{"self": x}
+				c.pkgName = nt.Obj().Pkg().Name()
+				c.fr = nil
+				c.depth = env.depth + 1
+				e.couplingsUsed[cp.Type+"."+name+" = "+cp.Src] = true
+				return c.eval(cp.E)
 			}
 		}
 		env.fail("no field %s in %s", name, x.Typ)
